@@ -352,6 +352,7 @@ def respace_data(lines, kinds, sep):
 
 def whole_file_variants(lines, kinds):
     sites = insertion_sites(lines, kinds)
+    data_sites = [k for k in sites if kinds[k - 1][0] == "data" and not kinds[k - 1][1]]
     idxs = [i for i in range(len(lines)) if kinds[i][0] in ("items", "data") and lines[i].strip()]
     out = [
         ("T5-crlf", {"eol": "\r\n"}),
@@ -364,6 +365,11 @@ def whole_file_variants(lines, kinds):
         ("T4-trailing-all", {"ops": [("trail", i, " \t") for i in idxs]}),
         ("T4-leading-all", {"ops": [("lead", i, "   ") for i in idxs if not kinds[i][1]]}),
         ("T1-blank-at-end", {"ops": [("ins", len(lines), ""), ("ins", len(lines), "")]} if kinds[-1][0] in ("items", "data") else {"eol": "\n"}),
+        # CRLF line ends combined with blank / comment lines (a blank line is then '\r\n')
+        ("T5+T1-blank-all", {"eol": "\r\n", "ops": [("ins", k, "") for k in sites]}),
+        ("T5+T2-comment-all", {"eol": "\r\n", "ops": [("ins", k, "# c") for k in sites]}),
+    ] + [("T5+T1-blank-in-data-%d" % n, {"eol": "\r\n", "ops": [("ins", k, "") for k in data_sites[:n]]}) for n in (1, 2, 3) if len(data_sites) >= n
+    ] + [("T5+T1-blank-at-data-end", {"eol": "\r\n", "ops": [("ins", k, "") for k in data_sites[-1:]]})] * (1 if data_sites else 0) + [
     ]
     return out
 
